@@ -98,16 +98,20 @@ def items(tier):
     for a in range(len(TOKENS)):
         out.append((i, 'pairs', a))
         i += 1
-    n = 4 if tier == 'thorough' else 3
+    n = 5 if tier == 'thorough' else 3
     for c in SYMCHARS:
         out.append((i, 'sym', c, n))
         i += 1
-    m = 5 if tier == 'thorough' else 4
+    m = 6 if tier == 'thorough' else 4
     for c in INTCHARS:
         out.append((i, 'int', c, m))
         i += 1
     out.append((i, 'esc'))
     i += 1
+    if tier == 'thorough':
+        for a in range(len(TOKENS)):
+            out.append((i, 'triples', a))
+            i += 1
     if tier == 'thorough':
         for lo in range(0, 0x110000, 0x4000):
             out.append((i, 'uni', lo, lo + 0x4000))
@@ -214,6 +218,13 @@ def run_item(item, tier):
             for sep in SEPS:
                 compare(st, a + sep + b, 'token pair')
         st.sample({'pair_family_first_token': a, 'separators': SEPS, 'second_tokens': len(TOKENS)})
+    elif kind == 'triples':
+        a = TOKENS[item[2]]
+        for b in TOKENS:
+            for c in TOKENS[::2]:
+                compare(st, a + b + c, 'token triple without separators')
+                compare(st, a + ' ' + b + '\n' + c, 'token triple with separators')
+        st.sample({'triple_family_first_token': a})
     elif kind == 'sym':
         c, n = item[2], item[3]
         for s in _strings(SYMCHARS, n - 1):
@@ -304,8 +315,9 @@ def coverage(total, tier):
         'exhaustive': True,
         'bounds': {
             'pairs': f'{len(TOKENS)} tokens (all keywords, all symbols, literal and identifier representatives) alone and in every ordered pair x {len(SEPS)} separators',
-            'symbols': f'all strings of length <= {4 if tier == "thorough" else 3} over {len(SYMCHARS)} symbol characters',
-            'integers': f'all strings of length <= {5 if tier == "thorough" else 4} over {INTCHARS!r}',
+            'symbols': f'all strings of length <= {5 if tier == "thorough" else 3} over {len(SYMCHARS)} symbol characters',
+            'integers': f'all strings of length <= {6 if tier == "thorough" else 4} over {INTCHARS!r}',
+            'triples': ('every token x every token x every 2nd token, glued and separated' if tier == 'thorough' else 'thorough tier only'),
             'escapes': 'all 256 \\xHH in 3 forms; every \\c for c in 0x20..0x7e in strings/chars; raw characters U+0000..U+017F; 50 malformed shapes',
             'unicode': 'every \\u{X} and literal character for X in 0..0x10FFFF' if tier == 'thorough' else '\\u{X} at 22 boundary values incl. surrogates and out-of-range',
             'layout': f'{len(layout_seeds())} seed programs (all examples + generated programs of every family) x {POLICIES}',
